@@ -287,7 +287,9 @@ func (a *Act) intrinsic(name string, fv FuncV, args []Value) (Value, bool) {
 	case "crypto/sha256.New":
 		// opaque hash object: ghost record of what was written
 		obj := a.alloc(StructV{f: []Value{BV(64, 0)}})
-		in.hashWrites = map[int][]SliceV{}
+		if in.hashWrites == nil {
+			in.hashWrites = map[int][]SliceV{}
+		}
 		return IfaceV{alts: []IfaceAlt{{g: True, typ: in.opaqueType("sha256"), val: ptrTo(obj)}}, nilG: False}, true
 	case "(*sync.Cond).Broadcast", "(*sync.Cond).Signal":
 		in.events = append(in.events, "cond.Broadcast")
